@@ -10,6 +10,7 @@
 import json
 
 import vlib
+from checks import c02
 
 CFG = """SPECIFICATION Spec
 CONSTANTS
@@ -62,6 +63,9 @@ def run(ctx, replay):
             raise vlib.Infra("no behaviours")
     else:
         obj = json.load(open(replay))
+        if "behaviour" not in obj:      # a crash run (DamagedMessageHanded)
+            c02.run_crash(ctx, replay, "C10", lambda v: v == "DamagedMessageHanded", sub="crash")
+            return
         behs = [obj["behaviour"]]
         behs[0]["id"] = 1
     ctx.log("%d behaviours" % len(behs))
@@ -95,10 +99,16 @@ def run(ctx, replay):
     ctx.cov["violated_predicates"] = preds
     for b in behs[:3]:
         ctx.cov["samples"].append({"behaviour": b, "trace": [e for e in by_t.get(b["id"], [])][:30]})
+    if not replay:
+        # a stop while the message is being stored must not make the queue hand over a damaged message
+        # (QueueDisk.tla; crash machinery of C02, reporting only DamagedMessageHanded)
+        c02.run_crash(ctx, None, "C10", lambda v: v == "DamagedMessageHanded", nscen=60 if thorough else 8,
+                      sub="crash")
     ctx.assumptions += [
         "header/body concretisations of the shape classes are fixed per class (random tag per behaviour); "
         "byte equality is computed by the harness target and logged as the shape name or 'changed(...)'",
-        "restarts are clean stops (crashes are C02)",
+        "restarts in the shape histories are clean stops; stops at every file operation of the store/update/remove "
+        "chains are replayed with the C02 crash machinery for the clause 'a damaged message is never handed over'",
     ]
 
 
